@@ -95,6 +95,7 @@ func main() {
 	seed := flag.Uint64("seed", 1, "seed")
 	out := flag.String("out", "", "output directory")
 	replay := flag.String("replay", "", "replay file")
+	witness := flag.String("witness", "", "run one named witness in this process")
 	flag.Parse()
 	f, ok := props[*prop]
 	if !ok {
@@ -105,6 +106,11 @@ func main() {
 		sort.Strings(ids)
 		fmt.Fprintf(os.Stderr, "unknown property %q (have %s)\n", *prop, strings.Join(ids, " "))
 		os.Exit(2)
+	}
+	if *witness == "cyclic" {
+		o := runRender(RCase{Tmpl: "<% vxs[0] = vxs %><%= vxs %>", Binds: c04pool()})
+		fmt.Println(o.Class)
+		return
 	}
 	if *replay != "" {
 		doReplay(*prop, *replay)
